@@ -416,6 +416,9 @@ func c09Protocol(c *Ctx, fn *ssa.Function, ren *ssa.Call) {
 	for _, call := range callsTo(fn, "os.CreateTemp") {
 		temp = call
 	}
+	if temp == nil && c09StagingHelper(c, fn, ren) {
+		return
+	}
 	if temp == nil {
 		r.Bad("O-2", fk+"#temp-created", pos, "no os.CreateTemp in the function that renames over the data file: the new content is not staged in a fresh file")
 		return
@@ -687,4 +690,196 @@ func c09FileStep(c *Ctx, g *ssa.Function, fi, di, depth int) (writes, closes boo
 		}
 	}
 	return
+}
+
+// c09StagingHelper: the staging of the new content is a helper of the
+// repository that creates the temporary, fills and closes it and hands back
+// its name: name, err := writeTempFile(filepath.Dir(dest), pattern, data, perm).
+// The obligations of the replace protocol are then split between the helper
+// (a nil error only after CreateTemp, Write and Close each succeeded; the
+// name handed back is the temporary's; the data written is the parameter) and
+// the renaming function (the helper's failure blocks the rename and is
+// returned; nil only after the rename succeeded). Reports them and answers
+// true when the form applies.
+func c09StagingHelper(c *Ctx, fn *ssa.Function, ren *ssa.Call) bool {
+	r := c.R
+	fk := load.FuncKey(fn)
+	pos := c.P.Pos(ren.Pos())
+	local := &origin.Tracer{}
+	var hc *ssa.Call
+	var g *ssa.Function
+	ssau.ForEachInstr(fn, false, func(in ssa.Instruction) {
+		call, ok := in.(*ssa.Call)
+		if !ok || !ssau.Dominates(call, ren) {
+			return
+		}
+		h := call.Common().StaticCallee()
+		if h == nil || h.Blocks == nil || !c.P.IsRepoFunc(h) || errorIndex(h) < 0 || len(callsTo(h, "os.CreateTemp")) != 1 {
+			return
+		}
+		if resultValue(call, 0) != nil && ssau.ResolveCell(ren.Common().Args[0]) == resultValue(call, 0) {
+			hc, g = call, h
+		}
+	})
+	if hc == nil {
+		return false
+	}
+	gk := load.FuncKey(g)
+	temp := callsTo(g, "os.CreateTemp")[0]
+	tmpFile := resultValue(temp, 0)
+	r.OK("O-2", fk+"#temp-created", c.P.Pos(hc.Pos()), "the new content is staged by "+g.Name()+", which creates the temporary")
+	// the temporary lives next to the destination
+	dirOK := false
+	if dp, ok := temp.Common().Args[0].(*ssa.Parameter); ok {
+		for i, q := range g.Params {
+			if q == dp && i < len(hc.Common().Args) {
+				if d, ok := hc.Common().Args[i].(*ssa.Call); ok && ssau.CallName(d) == "path/filepath.Dir" {
+					dirOK = fmt.Sprint(local.Roots(d.Common().Args[0])) == fmt.Sprint(local.Roots(ren.Common().Args[1]))
+				}
+			}
+		}
+	}
+	r.Check(dirOK, "O-2", fk+"#temp-in-dest-dir", c.P.Pos(temp.Pos()), "temporary file is created in filepath.Dir(dest): same file system, so the rename is atomic", "the temporary file is not created in filepath.Dir(<rename destination>): rename may cross file systems and stop being atomic")
+	onTemp := func(call *ssa.Call) bool {
+		a := call.Common().Args
+		return len(a) > 0 && tmpFile != nil && ssau.ResolveCell(a[0]) == tmpFile
+	}
+	var w, cl, nameCall *ssa.Call
+	ssau.ForEachInstr(g, false, func(in ssa.Instruction) {
+		call, ok := in.(*ssa.Call)
+		if !ok || !onTemp(call) {
+			return
+		}
+		switch ssau.CallName(call) {
+		case fileMeth + "Write":
+			w = call
+		case fileMeth + "Close":
+			cl = call
+		case fileMeth + "Name":
+			nameCall = call
+		}
+	})
+	if !r.Check(w != nil, "O-2", fk+"#write-before-rename", pos, "the staging helper writes the temporary before the Rename", "the staging helper never writes the temporary file") {
+		return true
+	}
+	// the data written is the data parameter of the renaming function
+	dataOK := false
+	if dp := ssau.ParamOf(w.Common().Args[1]); dp != nil || true {
+		var par *ssa.Parameter
+		if p, ok := w.Common().Args[1].(*ssa.Parameter); ok {
+			par = p
+		} else {
+			par = ssau.ParamOf(w.Common().Args[1])
+		}
+		for i, q := range g.Params {
+			if par != nil && q == par && i < len(hc.Common().Args) {
+				rs := local.Roots(hc.Common().Args[i])
+				dataOK = len(rs) == 1 && rs[0].Kind == "param"
+			}
+		}
+	}
+	r.Check(dataOK, "O-2", fk+"#writes-all-data", c.P.Pos(w.Pos()), "the whole data parameter is written", "the Write does not write exactly the data parameter (a reslice or other value): the new file may be incomplete")
+	r.Check(cl != nil, "O-2", fk+"#close-before-rename", pos, "the staging helper closes the temporary", "the temporary is never closed by the staging helper: buffered or failed data can be renamed into place")
+	// inside the helper: a nil error only after every step succeeded
+	for _, st := range []struct {
+		name string
+		call *ssa.Call
+	}{{"CreateTemp", temp}, {"Write", w}, {"Close", cl}} {
+		if st.call == nil {
+			continue
+		}
+		ok := nilOnlyAfterSuccess(g, st.call)
+		r.Check(ok, "O-2", fk+"#"+st.name+"-error-blocks-rename", c.P.Pos(st.call.Pos()), "the staging helper reports success only after "+st.name+" succeeded", "the staging helper "+g.Name()+" can report success although "+st.name+" failed: the Rename then replaces the data file with an incomplete one")
+		r.Check(ok, "O-2", fk+"#"+st.name+"-error-returned", c.P.Pos(st.call.Pos()), "a failed "+st.name+" makes the staging helper fail", "a failed "+st.name+" is not reported by "+g.Name())
+	}
+	// the name handed back on success is the temporary's
+	nameOK := nameCall != nil
+	if nameOK {
+		ei := errorIndex(g)
+		nameOK = nilPaths(g.Blocks[0], nil, func(ret *ssa.Return, s *nilState) bool {
+			if ei >= len(ret.Results) || s.nilness(ret.Results[ei]) == nlNonNil {
+				return true // a failing exit: the name does not matter
+			}
+			return s.resolve(ret.Results[0]) == ssa.Value(nameCall)
+		})
+	}
+	if !nameOK && nameCall != nil {
+		// the name lives in a variable that a clean-up closure may blank: it is
+		// then never anything but the temporary's name or "" (renaming "" fails
+		// and is reported; nothing is replaced)
+		nameOK = true
+		for _, ret := range ssau.ReturnsOf(g) {
+			ld, ok := ret.Results[0].(*ssa.UnOp)
+			if !ok {
+				if k, isC := ssau.ConstString(ret.Results[0]); !(isC && k == "") && ret.Results[0] != ssa.Value(nameCall) {
+					nameOK = false
+				}
+				continue
+			}
+			cell, ok := ld.X.(*ssa.Alloc)
+			if !ok {
+				nameOK = false
+				continue
+			}
+			var visit func(addr ssa.Value)
+			visit = func(addr ssa.Value) {
+				for _, ref := range *addr.Referrers() {
+					switch x := ref.(type) {
+					case *ssa.Store:
+						if x.Addr != addr {
+							nameOK = false
+							continue
+						}
+						if k, isC := ssau.ConstString(x.Val); isC && k == "" {
+							continue
+						}
+						if x.Val == ssa.Value(nameCall) {
+							continue
+						}
+						if l2, isLoad := x.Val.(*ssa.UnOp); isLoad && l2.X == addr {
+							continue
+						}
+						nameOK = false
+					case *ssa.MakeClosure:
+						h, _ := x.Fn.(*ssa.Function)
+						for i, bnd := range x.Bindings {
+							if bnd == addr && h != nil && i < len(h.FreeVars) {
+								visit(h.FreeVars[i])
+							}
+						}
+					}
+				}
+			}
+			visit(cell)
+		}
+	}
+	r.Check(nameOK, "O-2", fk+"#rename-source-is-temp", pos, "the file renamed over the destination is the temporary the helper staged", "the name the staging helper hands back on success is not (only) the temporary file's name")
+	_ = gk
+	// in the renaming function: the helper's failure blocks the rename and is returned
+	okB, whyB := errorBlocksTargets(hc, []*ssa.Call{ren})
+	r.Check(okB, "O-2", fk+"#staging-error-blocks-rename", c.P.Pos(hc.Pos()), "a failed staging never reaches the Rename", "after a failed staging the Rename can still run: "+whyB)
+	okP, whyP := failurePropagates(hc)
+	r.Check(okP, "O-2", fk+"#staging-error-returned", c.P.Pos(hc.Pos()), "a failed staging makes the function return a non-nil error", "a failed staging is not reported to the caller: "+whyP)
+	r.Check(nilOnlyAfterSuccess(fn, ren) || c09NilOnlyAfterRename(fn, ren), "O-2", fk+"#success-only-after-rename", pos, "every nil return lies behind a successful Rename", "a nil error can be returned without a successful Rename")
+	return true
+}
+
+// c09NilOnlyAfterRename: the edge-cut form of the same question.
+func c09NilOnlyAfterRename(fn *ssa.Function, ren *ssa.Call) bool {
+	ei := errorIndex(fn)
+	ev := errValue(ren)
+	if ei < 0 || ev == nil {
+		return false
+	}
+	succ, _ := nilTests(ev)
+	if len(succ) == 0 {
+		return false
+	}
+	reach := reachableFromEntry(fn, succ)
+	for _, ret := range ssau.ReturnsOf(fn) {
+		if reach[ret.Block()] && ssau.IsNilConst(ssau.ResultValue(ret, ei)) {
+			return false
+		}
+	}
+	return true
 }
